@@ -16,6 +16,17 @@ def obligations():
                     unwindset=['harness:%d' % (xl + max(xl, 0) // 255 + 10), 'write_extension_payload:%d' % (max(xl, 0) // 255 + 2), 'skip_extension_payload:%d' % (max(xl, 0) // 255 + 3)],
                     functions=['write_extension', 'write_extension_payload', 'skip_extension'], budget=900, tier=('quick' if xl <= 256 else 'thorough'),
                     bounds='payload length %d (case selector); any exact-size output buffer of 0..coded size+8 bytes, pos 0..3, any id 3..127, last 0/1' % xl))
+    for ln, nf, ph, tier in [(l, 3, p, 'quick' if l <= 3 else 'thorough') for l in range(0, 6) for p in (0, 1)]:
+        if ln < 2 and ph == 1:
+            continue      # a repeat needs a source region and an indicator byte: unreachable below 2 bytes (the invariant is unsatisfiable)
+        L.append(Ob('H1b.iterator_step.len%d.%s' % (ln, 'in_repeat' if ph else 'main'), 'C16_iter.c', [], ['-DIT_EL=%d' % ln, '-DIT_LEN=%d' % ln, '-DIT_NF=%d' % nf, '-DIT_PHASE=%d' % ph], lib=['C16_iter_lib.c'],
+                    replace=['opus_extension_iterator_next:vt_ih_next'], unwind=1, budget=900, tier=tier, witness=(ln >= 3),
+                    unwindset=['harness:%d' % (ln + 2), 'sp_consumed:%d' % (ln + 2), 'sp_wellformed:%d' % (ln + 2), 'skip_extension_payload:%d' % (ln + 2),
+                               'opus_extension_iterator_next:%d' % (max(ln, nf) + 2)],
+                    functions=['opus_extension_iterator_next', 'skip_extension', 'skip_extension_payload'],
+                    stubs=['recursive self-call of opus_extension_iterator_next: inductive-hypothesis stub (pre: invariant, strictly fewer bytes left; post: what this harness asserts)'],
+                    assumptions=['iterator state satisfies it_inv (harness/C16_iter_lib.c): offsets consistent, repeat source region is a sequence of whole extensions without a repeat indicator, 0<=frame_max<=nb_frames'],
+                    bounds='one call from any iterator state satisfying the invariant (%s) over any buffer of exactly %d bytes, nb_frames <= %d; inductive in the number of calls' % ('inside a repeat' if ph else 'outside a repeat', ln, nf)))
     cases = [(3, 24, (1, 1, 1, 0), 0, 3, 'quick'), (3, 24, (1, 1, 1, 0), 1, 3, 'quick'), (3, 24, (0, 2, 1, 0), 1, 2, 'quick'), (3, 24, (2, 0, 1, 0), 2, 3, 'quick'),
              (3, 24, (0, 2, 1, 0), 0, 2, 'thorough'), (3, 24, (2, 0, 0, 0), 0, 1, 'thorough'), (3, 24, (0, 0, 0, 0), 0, 3, 'thorough'),
              (4, 300, (1, 0, 2, 1), 1, 4, 'thorough'), (4, 300, (1, 1, 1, 1), 0, 4, 'thorough'), (4, 300, (0, 1, 0, 2), 2, 4, 'thorough')]
